@@ -27,6 +27,7 @@ package main
 import (
 	"errors"
 	"fmt"
+	"hash/fnv"
 	"io"
 	"os"
 	"path/filepath"
@@ -321,6 +322,49 @@ func newEvalEngine(c Case) *evalEngine {
 	if evalEngineTweak != nil {
 		evalEngineTweak(ee.eng)
 	}
+	// the callbacks reach the engine by one of three routes, chosen by the case's content (so a replay takes the same):
+	// AddFilter / AddFunction / AddTest, RegisterExtension with a configuration function, or CreateExtension +
+	// Add...ToExtension + AddExtension
+	filters, functions, tests := map[string]twig.FilterFunc{}, map[string]twig.FunctionFunc{}, map[string]twig.TestFunc{}
+	defer func() {
+		if len(filters)+len(functions)+len(tests) == 0 {
+			return
+		}
+		h := fnv.New32a()
+		h.Write([]byte(fmt.Sprint(c["tpls"], c["custom"])))
+		switch h.Sum32() % 3 {
+		case 0:
+		case 1:
+			ee.eng.RegisterExtension("verif_ext", func(x *twig.CustomExtension) {
+				for n, f := range filters {
+					x.Filters[n] = f
+				}
+				for n, f := range functions {
+					x.Functions[n] = f
+				}
+				for n, f := range tests {
+					x.Tests[n] = f
+				}
+			})
+		default:
+			x := ee.eng.CreateExtension("verif_ext2")
+			for n, f := range filters {
+				ee.eng.AddFilterToExtension(x, n, f)
+			}
+			for n, f := range functions {
+				ee.eng.AddFunctionToExtension(x, n, f)
+			}
+			for n, f := range tests {
+				ee.eng.AddTestToExtension(x, n, f)
+			}
+			ee.eng.AddExtension(x)
+		}
+	}()
+	direct := func() bool {
+		h := fnv.New32a()
+		h.Write([]byte(fmt.Sprint(c["tpls"], c["custom"])))
+		return h.Sum32()%3 == 0
+	}()
 	for _, cu := range c.list("custom") {
 		t, _ := cu.([]interface{})
 		if len(t) != 3 {
@@ -343,7 +387,7 @@ func newEvalEngine(c Case) *evalEngine {
 		}
 		switch kind {
 		case "filter":
-			ee.eng.AddFilter(name, func(value interface{}, args ...interface{}) (interface{}, error) {
+			f := func(value interface{}, args ...interface{}) (interface{}, error) {
 				ee.spy[key]++
 				if failErr != nil {
 					return nil, fmt.Errorf("filter %s: %w", name, failErr)
@@ -352,9 +396,14 @@ func newEvalEngine(c Case) *evalEngine {
 					return constVal, nil
 				}
 				return value, nil
-			})
+			}
+			if direct {
+				ee.eng.AddFilter(name, f)
+			} else {
+				filters[name] = f
+			}
 		case "function":
-			ee.eng.AddFunction(name, func(args ...interface{}) (interface{}, error) {
+			f := func(args ...interface{}) (interface{}, error) {
 				ee.spy[key]++
 				if failErr != nil {
 					return nil, fmt.Errorf("function %s: %w", name, failErr)
@@ -366,9 +415,14 @@ func newEvalEngine(c Case) *evalEngine {
 					return args[0], nil
 				}
 				return nil, nil
-			})
+			}
+			if direct {
+				ee.eng.AddFunction(name, f)
+			} else {
+				functions[name] = f
+			}
 		case "test":
-			ee.eng.AddTest(name, func(value interface{}, args ...interface{}) (bool, error) {
+			f := func(value interface{}, args ...interface{}) (bool, error) {
 				ee.spy[key]++
 				if failErr != nil {
 					return false, fmt.Errorf("test %s: %w", name, failErr)
@@ -378,7 +432,12 @@ func newEvalEngine(c Case) *evalEngine {
 					return b, nil
 				}
 				return evalTruth(value), nil
-			})
+			}
+			if direct {
+				ee.eng.AddTest(name, f)
+			} else {
+				tests[name] = f
+			}
 		default:
 			panic("unknown custom kind " + kind)
 		}
